@@ -494,6 +494,8 @@ HAND_PROGRAMS = [
     '#define F(x) ((x) + 100)\n#define TWICE(a) (a + a)\n#define PICK(a, b) (0 ? b : a)\nenum { F = 7, K = 1 };\nint twice = TWICE(F);\nint pick  = PICK(F, K);\nint both  = TWICE(F(1));\n',
     # `#` in the replacement list of an OBJECT-like macro is an ordinary token
     '#define HASH #\n#define HASHX # x\n#define STR(x) #x\n#define XSTR(x) STR(x)\nconst char *s1 = XSTR(HASH), *s2 = XSTR(HASHX), *s3 = STR(HASH), *s4 = XSTR(HASH HASH);\n',
+    # stringizing character constants and string literals with escapes: every backslash and quote inside them is escaped again
+    '#define STR(x) #x\n#define XS(x) STR(x)\n#define NL \'\\n\'\nconst char *a = STR(\'\\n\'), *b = STR(\'\\\\\'), *c = STR(L\'\\x41\'), *d = STR(\'\\\'\'), *e = STR("a\\n" \'\\t\' \'"\'), *f = XS(NL), *g = STR(u\'\\"\' "\\\\");\n',
     # two line splices in a row inside a definition, a splice right before the end of the definition, a splice inside a name
     '#define LONG(a, b) a + \\\n\\\nb\n#define TWO 2 \\\n\nint v = LONG(1, TWO);\nint w = LO\\\nNG(3,\\\n\\\n 4);\n',
 ]
